@@ -498,6 +498,11 @@ class Engine:
             z = zero_test(l, r)
             if z is not None:
                 return T(base, z[0], z[1])
+            # `x / c == 0` on an unsigned x is `x < c` (and `!= 0` is `x >= c`)
+            for q, zero in ((l, r), (r, l)):
+                if is_int_const(zero) and zero[1] == 0 and q[0] == 't' and q[1] == 'Div' and is_int_const(q[2][1]) and \
+                        q[2][1][1] > 0 and str(q[2][1][2]).startswith('u'):
+                    return T('Lt' if base == 'Eq' else 'Ge', q[2][0], q[2][1])
         v = T(base, l, r)
         if with_of:
             return ('agg', 'tuple', None, (v, C(0, 'bool')))
